@@ -98,11 +98,11 @@ TuneTrigger(ts) == /\ phase = "edit"
                          /\ tag' = t /\ hist' = Append(hist, Ev("tune_trigger", Arg(ts, NoOrd, NoScore, <<>>), t, TuneResults(ts)))
                    /\ UNCHANGED <<phase, doc, gen>>
 \* replacing an attribute of a mode that was never triggered is not part of the life cycle (excluded)
-ReplaceOrdinal(o) == phase = "edit" /\ tag.tr.ts # 0 /\ o # tag.tr.ord /\
+ReplaceOrdinal(o) == phase = "edit" /\ tag.tr.ts # 0 /\
                      Step("replace_ordinal", Arg(0, o, NoScore, <<>>), Tag(Training(tag.tr.ts, o), tag.tu, tag.st))
-ReplaceScore(s) == phase = "edit" /\ tag.tu.ts # 0 /\ s # tag.tu.sc /\
+ReplaceScore(s) == phase = "edit" /\ tag.tu.ts # 0 /\
                    Step("replace_score", Arg(0, NoOrd, s, <<>>), Tag(tag.tr, Tuning(tag.tu.ts, s), tag.st))
-ReplaceStates(st) == phase = "edit" /\ st # tag.st /\ Step("replace_states", Arg(0, NoOrd, NoScore, st), Tag(tag.tr, tag.tu, st))
+ReplaceStates(st) == phase = "edit" /\ Step("replace_states", Arg(0, NoOrd, NoScore, st), Tag(tag.tr, tag.tu, st))
 \* commit: persist the working tag; only trained tags are reachable through the life cycle unless Untrained
 DumpTag == /\ phase = "edit" /\ gen < MaxGen /\ (Untrained \/ tag.tr.ts # 0)
            /\ doc' = Dump(tag) /\ phase' = "stored" /\ gen' = gen + 1
@@ -140,7 +140,10 @@ Succ == {Ev("train_trigger", Arg(ts, NoOrd, NoScore, <<>>), tag, TrainResults(ts
         \cup {Ev("replace_score", Arg(0, NoOrd, s, <<>>), tag, {Tag(tag.tr, Tuning(tag.tu.ts, s), tag.st)}) :
                    s \in {x \in Scores : tag.tu.ts # 0}}
         \cup {Ev("replace_states", Arg(0, NoOrd, NoScore, st), tag, {Tag(tag.tr, tag.tu, st)}) : st \in StateSeqs}
+\* (compact tuples <<tr.ts, ord.k, ord.v, tu.ts, score present, score, states>> keep the export small)
+Enc(t) == <<t.tr.ts, t.tr.ord.k, t.tr.ord.v, t.tu.ts, IF t.tu.sc.p THEN 1 ELSE 0, t.tu.sc.v, t.st>>
 ExportSteps == (phase = "edit" /\ gen = 0) =>
-                  PrintT(ToJson([kind |-> "steps", tag |-> tag,
-                                 steps |-> SetToSeq({[op |-> e.op, a |-> e.a, allowed |-> SetToSeq(e.allowed)] : e \in Succ})]))
+                  PrintT(ToJson([kind |-> "steps", tag |-> Enc(tag),
+                                 steps |-> SetToSeq({<<e.op, e.a.ts, e.a.ord.k, e.a.ord.v, IF e.a.sc.p THEN 1 ELSE 0, e.a.sc.v, e.a.st,
+                                                       SetToSeq({Enc(t) : t \in e.allowed})>> : e \in Succ})]))
 =============================================================================
